@@ -115,6 +115,7 @@ type Exec struct {
 	Lemmas     map[string]int
 	FnSeen     map[string]int
 	Steps      int
+	clockAtHalf int64
 	Queries    int
 	TraceW     io.Writer
 	race       *raceState
